@@ -423,7 +423,7 @@ impl Simplifier {
                     expression,
                 }),
             ) => {
-                let original = interned::mul(left.clone(), right.clone());
+                let original = interned::infix(left.clone(), operator, right.clone());
                 let neg_left = self.simplify(interned::neg(left), limit - 1);
                 let new = self.simplify(
                     interned::infix(neg_left, operator, expression.clone()),
@@ -441,7 +441,7 @@ impl Simplifier {
                 InfixOperator::Star | InfixOperator::Slash,
                 _,
             ) => {
-                let original = interned::mul(left.clone(), right.clone());
+                let original = interned::infix(left.clone(), operator, right.clone());
                 let neg_right = self.simplify(interned::neg(right), limit - 1);
                 let new = self.simplify(
                     interned::infix(expression.clone(), operator, neg_right),
